@@ -150,4 +150,80 @@ theorem encodeRelocs_frame (c : Core) (buf : List Byte) (off addr : Nat) (drainA
     | err e => simp only; exact ⟨hs.1, fun j h1 _ => hs.2 j h1⟩
     | panic => simp only; exact ⟨hs.1, fun j h1 _ => hs.2 j h1⟩
 
+/-! ## what stays registered when a patch loop stops early (`staticsRest` / `dynamicsRest`) -/
+
+/-- a loop that ran to its end leaves nothing registered -/
+theorem staticsRest_of_ok (l : Labels) (off addr : Nat) (rs : List (PatchLoc × Nat × Nat)) (buf b : List Byte) (m m' : List PatchLoc)
+    (h : patchStatics l off addr rs buf m = (b, m', .ok)) : staticsRest l off addr rs buf = [] := by
+  induction rs generalizing buf m with
+  | nil => rfl
+  | cons r rest ih =>
+    obtain ⟨p, name, ver⟩ := r
+    simp only [patchStatics, staticsRest] at h ⊢
+    cases hr : l.resolveStatic name ver with
+    | error e => simp [hr] at h
+    | ok target =>
+      simp only [hr] at h ⊢
+      cases hp : p.patch buf off addr target with
+      | panic => simp [hp] at h
+      | impossible => simp [hp] at h
+      | ok buf' => simp only [hp] at h ⊢; exact ih buf' _ h
+
+theorem dynamicsRest_of_ok (l : Labels) (off addr : Nat) (rs : List (PatchLoc × Nat)) (buf b : List Byte) (m m' : List PatchLoc)
+    (h : patchDynamics l off addr rs buf m = (b, m', .ok)) : dynamicsRest l off addr rs buf = [] := by
+  induction rs generalizing buf m with
+  | nil => rfl
+  | cons r rest ih =>
+    obtain ⟨p, id⟩ := r
+    simp only [patchDynamics, dynamicsRest] at h ⊢
+    cases hr : l.resolveDynamic id with
+    | error e => simp [hr] at h
+    | ok target =>
+      simp only [hr] at h ⊢
+      cases hp : p.patch buf off addr target with
+      | panic => simp [hp] at h
+      | impossible => simp [hp] at h
+      | ok buf' => simp only [hp] at h ⊢; exact ih buf' _ h
+
+/-- a loop that stopped early keeps something registered -/
+theorem staticsRest_ne_nil_of_err (l : Labels) (off addr : Nat) (rs : List (PatchLoc × Nat × Nat)) (buf b : List Byte) (m m' : List PatchLoc)
+    (e : Err) (h : patchStatics l off addr rs buf m = (b, m', .err e)) : staticsRest l off addr rs buf ≠ [] := by
+  induction rs generalizing buf m with
+  | nil => simp [patchStatics] at h
+  | cons r rest ih =>
+    obtain ⟨p, name, ver⟩ := r
+    simp only [patchStatics, staticsRest] at h ⊢
+    cases hr : l.resolveStatic name ver with
+    | error e => simp
+    | ok target =>
+      simp only [hr] at h ⊢
+      cases hp : p.patch buf off addr target with
+      | panic => simp
+      | impossible => simp
+      | ok buf' => simp only [hp] at h ⊢; exact ih buf' _ h
+
+/-- the registered references split into the ones a SUCCESSFUL loop has patched (a prefix, leading to the same buffer) and the ones
+that stay registered -/
+theorem staticsRest_split (l : Labels) (off addr : Nat) (rs : List (PatchLoc × Nat × Nat)) (buf : List Byte) (m : List PatchLoc) :
+    ∃ pre, rs = pre ++ staticsRest l off addr rs buf ∧
+      patchStatics l off addr pre buf m =
+        ((patchStatics l off addr rs buf m).1, (patchStatics l off addr rs buf m).2.1, .ok) := by
+  induction rs generalizing buf m with
+  | nil => exact ⟨[], rfl, rfl⟩
+  | cons r rest ih =>
+    obtain ⟨p, name, ver⟩ := r
+    cases hr : l.resolveStatic name ver with
+    | error e => exact ⟨[], by simp [staticsRest, hr], by simp [patchStatics, hr]⟩
+    | ok target =>
+      cases hp : p.patch buf off addr target with
+      | panic => exact ⟨[], by simp [staticsRest, hr, hp], by simp [patchStatics, hr, hp]⟩
+      | impossible => exact ⟨[], by simp [staticsRest, hr, hp], by simp [patchStatics, hr, hp]⟩
+      | ok buf' =>
+        obtain ⟨pre, h1, h2⟩ := ih buf' (if p.needsAdjustment then m ++ [p] else m)
+        refine ⟨(p, name, ver) :: pre, ?_, ?_⟩
+        · simp only [staticsRest, hr, hp, List.cons_append]
+          exact congrArg _ h1
+        · simp only [patchStatics, hr, hp]
+          exact h2
+
 end DynasmVerif.Patch
